@@ -1,4 +1,97 @@
-From Coq Require Import QArith List.
+(* C16 -- Reconnector keeps retrying until stopped and is silent afterwards.
+   Property theorems only; proofs live in lib/ReconnectorProofs.v.  The methods of the Reconnector are
+   gen/ReconnectorGen.v (translated from reconnector.py on every run); lib/Reconnector.v adds the environment
+   (which event calls which method, and `permitted` = the event orders the API allows: startConnecting at most
+   once, a Deferred / disconnect watcher / timer fires only if it exists, reset/stopConnecting at any time,
+   also before the Tub has started the Reconnector). *)
+From Coq Require Import QArith Qminmax List.
+Import ListNotations.
 Require Import Verif.lib.ReconnectorBase Verif.gen.ReconnectorGen Verif.lib.Reconnector Verif.lib.ReconnectorProofs.
-Theorem C16_stub : True. Proof. exact placeholder_true. Qed.
-Print Assumptions C16_stub.
+Local Open Scope Q_scope.
+
+(* "A Reconnector that has been started and not stopped ..." is exactly _active *)
+Theorem C16_active_iff_started_not_stopped : forall evs,
+  permitted init_state evs ->
+  let s := fst (run init_state evs) in
+  active s = true <-> (tub s = true /\ stopped s = false).
+Proof. exact active_iff_started_not_stopped. Qed.
+Print Assumptions C16_active_iff_started_not_stopped.
+
+(* "... always has exactly one of: a connection attempt in progress, an established connection it is watching,
+   or one retry timer pending"; no timer is ever leaked; ReconnectionInfo.state names the one that is pending;
+   an inactive Reconnector has no timer *)
+Theorem C16_one_activity : forall evs,
+  permitted init_state evs ->
+  let s := fst (run init_state evs) in
+  leaked s = 0%nat /\
+  (active s = true -> (inflight s + watching s + timer_count s = 1)%nat /\ info_agrees s) /\
+  (active s = false -> timer s = None).
+Proof. exact one_activity. Qed.
+Print Assumptions C16_one_activity.
+
+(* "... with a delay between zero and the documented maximum (plus jitter)": for draws of at most Zmax sigmas,
+   Zmax <= 1/jitter (8.36), every timer that is set, reset or pending, and _delay itself, lies in
+   [0, maxDelay * (1 + jitter*Zmax)].  Holds for every event order, permitted or not. *)
+Theorem C16_delay_range : forall Zmax evs,
+  0 <= Zmax -> Zmax * jitter <= 1 -> Forall (z_bounded Zmax) evs ->
+  let r := run init_state evs in
+  in_range Zmax (delay (fst r)) /\
+  (forall d, timer (fst r) = Some d -> in_range Zmax d) /\
+  Forall (out_in_range Zmax) (snd r).
+Proof. exact delay_range. Qed.
+Print Assumptions C16_delay_range.
+
+(* the bound on the draw is necessary: random.normalvariate is unbounded, and a draw below -1/jitter sigmas
+   (probability about 3e-17 per failure) makes the code ask for a negative delay; the real reactor's callLater
+   asserts delay >= 0, the AssertionError is swallowed by the Deferred and the Reconnector stays active with
+   nothing pending.  Stated, not hidden. *)
+Theorem C16_negative_delay_possible :
+  exists z d, permitted init_state [Start; AttemptFail z] /\
+              timer (fst (run init_state [Start; AttemptFail z])) = Some d /\ d < 0.
+Proof. exact negative_delay_possible. Qed.
+Print Assumptions C16_negative_delay_possible.
+
+(* "after a successful connection the backoff restarts from the initial delay": whatever failures preceded the
+   success, when that connection is lost the retry timer is exactly initialDelay, and a failure of that retry
+   waits min(initialDelay*factor, maxDelay) with jitter -- not the delay reached before the success *)
+Theorem C16_backoff_restarts : forall evs z,
+  permitted init_state (evs ++ [AttemptOk]) ->
+  let s := fst (run init_state (evs ++ [AttemptOk])) in
+  active s = true ->
+  enabled s Lost = true /\
+  let r := run s [Lost; TimerExpired; AttemptFail z] in
+  permitted s [Lost; TimerExpired; AttemptFail z] /\
+  snd r = [OSetTimer initialDelay; OGetRef; OSetTimer (jittered z (Qmin (initialDelay * factor) maxDelay))] /\
+  timer (fst r) = Some (jittered z (Qmin (initialDelay * factor) maxDelay)).
+Proof. exact backoff_restarts. Qed.
+Print Assumptions C16_backoff_restarts.
+
+(* "keeps retrying until stopped": while active something is pending, a failed attempt always schedules exactly
+   one retry timer, a lost connection schedules one, and an expiring timer always starts exactly one attempt *)
+Theorem C16_keeps_retrying : forall evs,
+  permitted init_state evs ->
+  let s := fst (run init_state evs) in
+  active s = true ->
+  (enabled s AttemptOk = true \/ enabled s Lost = true \/ enabled s TimerExpired = true) /\
+  (forall z, enabled s (AttemptFail z) = true ->
+     exists d, snd (step s (AttemptFail z)) = [OSetTimer d] /\ timer (fst (step s (AttemptFail z))) = Some d
+               /\ active (fst (step s (AttemptFail z))) = true) /\
+  (enabled s Lost = true ->
+     snd (step s Lost) = [OSetTimer initialDelay] /\ active (fst (step s Lost)) = true) /\
+  (enabled s TimerExpired = true ->
+     snd (step s TimerExpired) = [OGetRef] /\ inflight (fst (step s TimerExpired)) = 1%nat
+     /\ active (fst (step s TimerExpired)) = true).
+Proof. exact keeps_retrying. Qed.
+Print Assumptions C16_keeps_retrying.
+
+(* "After stopConnecting the user callback is never invoked again and no timer or attempt is started, even if an
+   attempt was in flight": for every history before the stop (including none: stopConnecting while still queued
+   for Tub.startService) and every permitted continuation, no callback, getReference, notifyOnDisconnect,
+   callLater or timer reset happens, no timer is pending and the Reconnector stays inactive *)
+Theorem C16_silent_after_stop : forall evs1 evs2,
+  permitted init_state (evs1 ++ Stop :: evs2) ->
+  let s1 := fst (run init_state (evs1 ++ [Stop])) in
+  let r := run s1 evs2 in
+  Forall (fun o => silent o = true) (snd r) /\ active (fst r) = false /\ timer (fst r) = None /\ leaked (fst r) = 0%nat.
+Proof. exact silent_after_stop. Qed.
+Print Assumptions C16_silent_after_stop.
